@@ -312,7 +312,14 @@ func runC13(c *ctx, r *Report) error {
 	r.Exhaustive = true
 	r.sample(map[string]string{"file": "a.yml", "mapping": "jobs.build.container", "mutation": "foreign key zz-unknown at the front, with a malformed placeholder in `image`"})
 	r.sample(map[string]string{"file": "b.yml", "mapping": "on.workflow_call.inputs", "mutation": "repeated key NAME (case-insensitive mapping)"})
-	return c13KeyOrder(c, r)
+	if err := c13KeyOrder(c, r); err != nil {
+		return err
+	}
+	per := 12
+	if !c.quick {
+		per = 400
+	}
+	return pwStandard(c, r, "diag", per, true)
 }
 
 var reC13Pos = regexp.MustCompile(`line:\d+,col:\d+`)
